@@ -64,6 +64,13 @@ def _alarm(signum, frame):
     raise CaseTimeout()
 
 
+def _reset_tracebacklimit():
+    # the third-party `pddl` parser sets sys.tracebacklimit = 0 and does not restore it when
+    # parsing fails; Hypothesis needs tracebacks to locate the failing frame
+    if hasattr(sys, "tracebacklimit"):
+        del sys.tracebacklimit
+
+
 def jdefault(o):
     if isinstance(o, Fraction):
         return str(o)
@@ -155,6 +162,7 @@ class Ctx:
     # ------------------------------------------------------------ oracles
     def guard(self, oracle: Callable[[Any], None], case: Any):
         """Run ``oracle(case)``; route Violations (known -> counted, new -> raise)."""
+        _reset_tracebacklimit()
         try:
             if self.failure is None:
                 self.evaluations += 1
@@ -176,7 +184,10 @@ class Ctx:
                 self.excluded_known[v.sig] += 1
                 return
             self._record_failure(v, case)
-            raise
+            _reset_tracebacklimit()
+            # a fresh exception without context chain (Hypothesis inspects chained exceptions'
+            # tracebacks and trips over some of them)
+            raise Violation(v.sig, v.message, v.case, v.extra) from None
         else:
             if self.failure is not None:
                 self._calls_after_failure += 1
@@ -192,6 +203,7 @@ class Ctx:
             return fn(*args)
         finally:
             signal.setitimer(signal.ITIMER_REAL, 0)
+            _reset_tracebacklimit()
 
     def _record_failure(self, v: Violation, case: Any):
         c = v.case if v.case is not None else case
